@@ -523,10 +523,7 @@ theorem readBlocks_nf (csize : Int) : ∀ (k n : Nat) (buf : Bytes) (sum : Nat),
     · split
       · refine NF.readByte ?_ ?_
         · intro _
-          simp only
-          split
-          · exact NF.ret (by omega)
-          · split <;> exact NF.ret (by omega)
+          exact NF.ret (by omega)
         · intro x _
           simp only
           split
